@@ -37,6 +37,11 @@ CHECKS = {
             "The (class, attribute) pair dimension is finite and enumerated completely on every run (566 pairs: every object/group/data class, data/object/group types, workspace header); values and assignment orders are sampled. Each accepted assignment must be what a fresh reader of the closed file sees, and all other attributes must agree between memory and file.",
             "Value domains come from a table keyed by attribute name (vp/engines/values.py::make_value); pairs without a domain and pairs whose setter rejects the value are listed in the evidence, not claimed.",
             "DESIGN.md 3/C03"),
+    "C08": ("values", "exploration",
+            "differential PBT against a reference codec written from the format documentation (verdict + live / re-opened / raw h5py read-back)",
+            "Generated arrays of every NumPy numeric dtype with boundary-pool magnitudes, Unicode/byte strings, metadata, comments, blobs and value maps are written through the API; acceptance and the three read-backs are compared with an independent codec. Exploration fits: the input space is unbounded, the boundary pool targets the narrow regions.",
+            "Under-specified classes (bool->float, |int|>2^53->float, NaN->bool, NUL in strings, empty blob) are counted, not judged; byte strings compared by decoded content.",
+            "DESIGN.md 3/C08"),
 }
 
 NOT_APPLICABLE = {}
